@@ -527,7 +527,7 @@ func c12Plan(tier string, seed int64) []core.Batch {
 	memDepth, fileDepth, nRand, rounds, crashes := 4, 3, 150, 12, 12
 	parts := 8
 	if tier == "thorough" {
-		memDepth, fileDepth, nRand, rounds, crashes = 5, 4, 1500, 60, 60
+		memDepth, fileDepth, nRand, rounds, crashes = 5, 4, 6000, 200, 200
 		parts = 16
 	}
 	for p := 0; p < parts; p++ {
@@ -568,7 +568,7 @@ func init() {
 		Parallel: 12,
 		Floors: map[string]map[string]int64{
 			"quick":    {"sequences_ending_with_entries": 20000, "concurrent_ops": 50000, "dirty_dirs_reopened": 5},
-			"thorough": {"sequences_ending_with_entries": 400000, "concurrent_ops": 300000, "dirty_dirs_reopened": 30},
+			"thorough": {"sequences_ending_with_entries": 400000, "concurrent_ops": 1000000, "dirty_dirs_reopened": 100},
 		},
 	})
 }
